@@ -35,8 +35,34 @@ type bfsCfg struct {
 	bound    string
 }
 
+// node is the stored form of a state of the frontier: the step that led to it, the model of the
+// handle that step added (if any) and the predecessor; the slices of a state are rebuilt from the
+// chain when the state is expanded.
+type node struct {
+	parent *node
+	st     step
+	model  *mval
+}
+
+func (nd *node) expand(pool *poolSpec) *state {
+	var chain []*node
+	for x := nd; x != nil && x.parent != nil; x = x.parent {
+		chain = append(chain, x)
+	}
+	s := initialState(pool)
+	for i := len(chain) - 1; i >= 0; i-- {
+		x := chain[i]
+		s.path = append(s.path, x.st)
+		if x.st.added {
+			s.models = append(s.models, x.model)
+			s.prov = append(s.prov, prov{op: x.st.op.name, a: x.st.a, b: x.st.b})
+		}
+	}
+	return s
+}
+
 func initialState(pool *poolSpec) *state {
-	s := &state{models: pool.models}
+	s := &state{models: append([]*mval{}, pool.models...)}
 	for range pool.models {
 		s.prov = append(s.prov, prov{op: "initial", a: -1, b: -1})
 	}
@@ -77,7 +103,6 @@ func (e *env) account(ki keyInfo, class string) {
 	h := ki.h128[0] &^ 1
 	if ki.sharing || ki.lazy {
 		h |= 1
-		ctx.NontrivialH(h)
 	}
 	e.keyHash = append(e.keyHash, h)
 	if len(e.keyHash) >= 1<<22 {
@@ -123,7 +148,6 @@ func (e *env) bfs(cfg bfsCfg) {
 	ctx := e.ctx
 	ctx.Space(cfg.space)
 	var tIdx int64
-	complete := true
 pools:
 	for pi := range cfg.pools {
 		pool := &cfg.pools[pi]
@@ -155,12 +179,13 @@ pools:
 			}
 			tIdx++
 		}
-		frontier := []*state{init}
+		frontier := []*node{{}}
 		for d := 1; d <= cfg.depth; d++ {
 			last := d == cfg.depth
-			var next []*state
+			var next []*node
 			newKeys := 0
-			for _, s := range frontier {
+			for _, nd := range frontier {
+				s := nd.expand(pool)
 				n := len(s.models)
 				for _, op := range ops {
 					for a := 0; a < n; a++ {
@@ -197,7 +222,6 @@ pools:
 								continue
 							}
 							if ctx.Expired() {
-								complete = false
 								break pools
 							}
 							if owner {
@@ -218,12 +242,15 @@ pools:
 								continue
 							}
 							ki := e.kb.key(pool.name, lv, succ, owner && e.sampleHere(cfg.space) && d >= 2 && t%97 == 0)
-							_, known := seen[ki.h128]
-							if !known {
-								seen[ki.h128] = struct{}{}
-								newKeys++
-								if !last {
-									next = append(next, succ)
+							if !last {
+								if _, known := seen[ki.h128]; !known {
+									seen[ki.h128] = struct{}{}
+									newKeys++
+									nn := &node{parent: nd, st: succ.path[len(succ.path)-1]}
+									if nn.st.added {
+										nn.model = succ.models[len(succ.models)-1]
+									}
+									next = append(next, nn)
 								}
 							}
 							if !owner {
@@ -253,7 +280,6 @@ pools:
 			}
 		}
 	}
-	_ = complete
 	ctx.SpaceDone(cfg.bound)
 }
 
@@ -566,7 +592,6 @@ func (e *env) callbacks(maxLen int) {
 		}
 		ctx.Outcome(fmt.Sprintf("kept lists: %s", map[bool]string{true: "none", false: "some"}[nw == 0]))
 		if nw >= 2 {
-			ctx.Nontrivial("cb|" + fmt.Sprint(repro))
 			ctx.Add("callback_cases_with_two_or_more_kept_lists", 1)
 		}
 		if len(bad) > 0 {
@@ -580,11 +605,11 @@ func (e *env) callbacks(maxLen int) {
 // ---------------------------------------------------------------------------------------------
 
 func run(ctx *bex.Ctx) {
-	debug.SetGCPercent(200)
+	debug.SetGCPercent(150)
 	e := newEnv(ctx)
 	quick := ctx.Quick()
 
-	nested := map[string]bool{"movingWindow(e->e)": true, "movingWindowRemove(w->w.size()>2)": true, "combine((x,y)->[x,y])": true, "map(e->[e,e+1])": true}
+	nested := map[string]bool{"movingWindow(e->e)": true, "movingWindowRemove(w->w.size()>2)": true, "combine((x,y)->[x,y])": true, "map(e->[e,e+1])": true, "combineN(2,w->w)": true}
 	general := func(o *opDef) bool { return !o.usesParam && !nested[o.name] }
 	dList, dMap, dNested, dTree, kChain, cbLen := 3, 4, 3, 7, 8, 6
 	if !quick {
@@ -609,7 +634,7 @@ func run(ctx *bex.Ctx) {
 			}
 			return false
 		},
-		bound: fmt.Sprintf("every history of <= %d operations over producers of lists of lists (inner lists are views on the operand's array) plus append/set/reverse/+/top/skip/eval/element extraction, 3 initial pools", dNested)})
+		bound: fmt.Sprintf("every history of <= %d operations over producers of lists of lists (movingWindow, movingWindowRemove, combine, combineN(2,w->w), map to pairs; inner lists are views on the operand's array or copies) plus append/set/reverse/+/top/skip/eval/element extraction, 3 initial pools", dNested)})
 	e.bfs(bfsCfg{space: "list-histories", pools: listPools(), depth: dList, lenBound: 12, allow: general,
 		bound: fmt.Sprintf("every history of <= %d operations of the full list alphabet (13 producers, 12 consumers, re-evaluation of the constant function, append inside the generated function) on every handle (pair) of the pool, 10 initial pools; lists longer than 12 are not built", dList)})
 	core := map[string]bool{"append(7)": true, "append(8)": true, "set(0,9)": true, "reverse()": true, "order(e->e)": true, "map(e->e+1)": true, "+": true,
@@ -654,6 +679,9 @@ func keyDir(pid int) string {
 func (e *env) writeKeyHashes() {
 	h := sortDedup(e.keyHash)
 	e.ctx.Add("states_sum_over_shards", int64(len(h)))
+	for _, x := range h {
+		e.ctx.Add("nontrivial_states_sum_over_shards", int64(x&1))
+	}
 	dir := keyDir(os.Getppid())
 	if os.MkdirAll(dir, 0755) != nil {
 		return
@@ -687,10 +715,13 @@ func extra(merged *bex.Result, cov map[string]any) {
 			nt += int64(h & 1)
 		}
 		cov["states"] = int64(len(all))
-		cov["distinct_nontrivial"] = nt + merged.Counters["callback_cases_with_two_or_more_kept_lists"]
+		merged.Nontrivial = nt + merged.Counters["callback_cases_with_two_or_more_kept_lists"]
+		cov["distinct_nontrivial"] = merged.Nontrivial
 		cov["states_counting"] = "exact: distinct canonical keys (64-bit hashes) merged over all workers; distinct_nontrivial likewise"
 	} else {
 		cov["states"] = merged.Counters["states_sum_over_shards"]
+		merged.Nontrivial = merged.Counters["nontrivial_states_sum_over_shards"] + merged.Counters["callback_cases_with_two_or_more_kept_lists"]
+		cov["distinct_nontrivial"] = merged.Nontrivial
 		cov["states_counting"] = "upper bound: sum over workers of their distinct canonical keys (key files of some workers missing)"
 	}
 	var done, open []string
@@ -767,13 +798,13 @@ func main() {
 	bex.Main(&bex.Check{
 		ID:    "C09",
 		Level: "model_checking",
-		Rule:  "explicit-state breadth-first search over operation histories on the real list/map objects: a state is a pool of live handles, a transition applies one operation of the alphabet (a function generated once on value.New(), evaluated on the handles as arguments) to one handle or an ordered pair and adds the result as a new handle; the successor is computed by replaying the shortest path on fresh initial objects plus the operation; its canonical key = per handle the model value and the hidden state read through overlay accessors (itemsPresent/len/cap/size hint, backing-array sharing class and offset, object identity, derivation of lazy lists, storage-wrapper nesting of maps), handles sorted, identities renamed by first occurrence; then EVERY live handle is observed (string(), size(), h=h, = / != against literals built from the model in both operand orders, every element / key, one-past-the-end, equality between all handles, string() again) and compared with the functional model value fixed at creation; observers that change hidden state are also letters of the alphabet, observation itself never leaks into a continued history. evaluations = transitions executed and observed (each exactly once, on the worker that owns its index); distinct_nontrivial = distinct successor keys (per worker) in which two list objects share a backing array or a handle is still lazy",
+		Rule:  "explicit-state breadth-first search over operation histories on the real list/map objects: a state is a pool of live handles, a transition applies one operation of the alphabet (a function generated once on value.New(), evaluated on the handles as arguments) to one handle or an ordered pair and adds the result as a new handle; the successor is computed by replaying the shortest path on fresh initial objects plus the operation; its canonical key = per handle the model value and the hidden state read through overlay accessors (itemsPresent/len/cap/size hint, backing-array sharing class and offset, object identity, derivation of lazy lists, storage-wrapper nesting of maps), handles sorted, identities renamed by first occurrence; then EVERY live handle is observed (string(), size(), h=h, = / != against literals built from the model in both operand orders, every element / key, one-past-the-end, equality between all handles, string() again) and compared with the functional model value fixed at creation; observers that change hidden state are also letters of the alphabet, observation itself never leaks into a continued history. evaluations = transitions executed and observed (each exactly once, on the worker that owns its index); states = distinct canonical keys reached, counted exactly by merging the sorted key hashes of all workers; distinct_nontrivial = those of them in which two list objects share a backing array or a handle is still lazy (the configurations in which an in-place write could reach another value), plus the callback cases in which at least two lists are kept",
 		Assumptions: []string{
 			"the functional model (Go slices/maps, written from the method descriptions) is the meaning of the operations; a result that differs from it at creation is reported as well",
 			"key order in the string form of a map that is, or was filled from, a hash-backed storage (Go map, struct wrapper) is not determined by the specification: compared as a set of entries (and required to be stable between two observations when the storage is list-backed); counted under unspecified_excluded",
 			"lists are kept <= 12 elements in the general alphabets so that map/accept stay in the iterator's sequential mode (parallel mode is the subject of C06/C11); the append families have no length bound",
 			"replace is only applied with a replacement key inside the key set (keys outside are C13's subject)",
-			"windows computed by combineN are not compared with a model (their order is C07's finding F07c); C09 only demands that a window list keeps the value it had when the callback received it",
+			"in the space lists-kept-by-callbacks the groups computed by combineN are not compared with a model, only with the value they had when the callback received them (so the persistence defect F09a is separated from the wrong group order F07c of C07); the nested-list alphabet contains combineN(2,w->w) with the documented groups as model",
 			"Go's allocator does not move heap objects: backing-array identity is read as an address within one execution only",
 		},
 		QuickBudget: 50e9, ThoroughBudget: 22 * 60e9,
